@@ -103,6 +103,13 @@ FailureMeansErr(o) ==
         LET r == o.returns[i] IN
         PreExecFailed(r.failed) # {} => r.res = "err"
 
+\* Err means the spawn did NOT happen: the caller that is told Err has no handle on a child, so there
+\* must be no child running (or going to run) the program - it was never created, or it exited without
+\* exec.  (An interrupted / failed read of the status of a child that then execs is not a failed step
+\* of the spawn; returning Err for it leaves an un-owned process behind.)
+ErrMeansNoExec(o) ==
+    \A i \in DOMAIN o.returns : (o.returns[i].proc = "P" /\ o.returns[i].res = "err") => ~o.execd
+
 \* no process is left running the caller's code: the forked child never gets back into the
 \* caller's code ("escaped": it passed the return point / left do_spawn alive), and at the end
 \* of the observation it is not still sitting in the caller's image (neither exec'ed nor
@@ -130,6 +137,7 @@ Violated(c, o, atEnd) ==
     \cup (IF OkMeansExec(o) THEN {} ELSE {"OkMeansExec"})
     \cup (IF OkMeansConfigured(c, o) /\ ExecIsConfigured(c, o) THEN {} ELSE {"OkMeansConfigured"})
     \cup (IF ErrCarriesErrno(o) THEN {} ELSE {"ErrCarriesErrno"})
+    \cup (IF ErrMeansNoExec(o) THEN {} ELSE {"ErrMeansNoExec"})
     \cup (IF NoneLeftRunning(o, atEnd) THEN {} ELSE {"NoneLeftRunning"})
     \cup (IF WaitStatus(o) THEN {} ELSE {"WaitStatus"})
     \cup (IF WaitStatusStable(o) THEN {} ELSE {"WaitStatusStable"})
